@@ -25,6 +25,8 @@ pub struct RustDocument {
     pub(crate) soap_services: Vec<SoapService>,
     /// names that are being resolved through a search of the XML tree (guards against cyclic definitions)
     pub(crate) resolving: Vec<String>,
+    /// the default namespace (`xmlns="..."`) of the root element: names without a prefix belong to it
+    pub(crate) default_namespace: Option<String>,
 }
 
 impl RustDocument {
@@ -63,6 +65,7 @@ impl RustDocument {
             soap_bindings: Vec::new(),
             soap_services: Vec::new(),
             resolving: Vec::new(),
+            default_namespace: None,
         }
     }
 
@@ -108,6 +111,15 @@ impl RustDocument {
 
     pub fn find_namespace_by_abbreviation(&self, abbreviation: &str) -> Option<&Rc<Namespace>> {
         self.namespace_lookup.get(abbreviation)
+    }
+
+    /// Names without a prefix are names of the schema itself when its default namespace is its target namespace
+    /// (with `xmlns="http://www.w3.org/2001/XMLSchema"` they are the built-in types).
+    pub fn unprefixed_names_are_own(&self) -> bool {
+        match (&self.default_namespace, &self.current_target_namespace) {
+            (Some(default), Some(target)) => *default == target.namespace,
+            _ => false,
+        }
     }
 
     pub fn find_namespace(&self, url: &str) -> Option<&Rc<Namespace>> {
